@@ -6,7 +6,10 @@ loose  : the same relation except that true==1 and false==0 at every depth
          (what naive Python == gives).  A case whose verdict differs between
          the two relations is "equality sensitive" and belongs to C08.
 """
+from decimal import Decimal
 from fractions import Fraction
+
+NUM = (int, float, Decimal)          # numbers as Python hands them to the library (json.loads(parse_float=Decimal))
 
 
 def _num_eq(a, b):
@@ -21,8 +24,8 @@ def jeq(a, b):
         return isinstance(a, bool) and isinstance(b, bool) and a is b
     if a is None or b is None:
         return a is None and b is None
-    an = isinstance(a, (int, float))
-    bn = isinstance(b, (int, float))
+    an = isinstance(a, NUM)
+    bn = isinstance(b, NUM)
     if an or bn:
         return an and bn and _num_eq(a, b)
     if isinstance(a, str) or isinstance(b, str):
@@ -43,7 +46,7 @@ def jeq(a, b):
 
 def loose(a, b):
     def num(x):
-        return isinstance(x, (bool, int, float))
+        return isinstance(x, (bool,) + NUM)
     if num(a) or num(b):
         return num(a) and num(b) and _num_eq(int(a) if isinstance(a, bool) else a,
                                              int(b) if isinstance(b, bool) else b)
